@@ -124,7 +124,8 @@ class SimultaneousScheduler(Scheduler):
 
 
         # If any delayed events observed, store them in the model's events list for later use
-        model.events += self.delayed_events
+        # put them back in sending order: they are popped from the tail above, so the parked list is reversed
+        model.events += self.delayed_events[::-1]
 
         self.delayed_events = []
 
